@@ -465,3 +465,23 @@ Example history_example :
   mono (h ++ [WRead 2200]) /\ read_after 1000 h 2200 = [-3] /\
   option_map export_triple (get_after 1000 h 2200) = Some (-3, -3, -3).
 Proof. cbn. repeat split; lia. Qed.
+
+(* ---------- why scan and drop of a cleaner tick must be one critical section *)
+
+(* without interference the split tick is the tick *)
+Lemma split_tick_alone : forall now w, drop_n (scan now w) w = tick now w.
+Proof.
+  intros now w. unfold drop_n, scan, tick, drop_expired.
+  destruct (newstart now w); reflexivity.
+Qed.
+
+(* with an export between scan and drop a live sample disappears: the next read no
+   longer reports what the history prescribes *)
+Theorem split_tick_refuted :
+  exists L h t,
+    0 <= L /\ mono (h ++ [WRead t]) /\
+    snd (samples t (split_tick_with_export t t (exec L h))) <> spec_samples L h t.
+Proof.
+  exists 1000, [WAdd 0 9; WAdd 1500 5], 2000.
+  split; [lia|]. split; [cbn; lia|]. vm_compute. discriminate.
+Qed.
